@@ -4,13 +4,15 @@ import subprocess
 import vlib
 
 META = {
-    "engine": "FileModel.tla,FileModelLineReader.tla",
+    "engine": "FileModel.tla,FileModelLineReader.tla,FileModelBig.tla",
     "technique": "TLC exhaustive enumeration of FileModel.tla histories (put/write/append/stream/copy/move/remove through "
                  "temporaries, open/write/flush/close/read/readLine through a long-lived object) replayed on real File/"
                  "TextFile/Directory under ASan+LSan with the results of every call and the final observation of every "
                  "path (API and POSIX) compared; TLC-generated line shapes at the real 255-byte chunk size and BOM texts; "
                  "the implementation-shaped chunked line reader checked against the property-level Lines in TLC; "
-                 "recorded random executions (sizes to 200000, lines to 2000, BOM texts) validated by TLC",
+                 "recorded random executions (sizes to 200000, lines to 2000, BOM texts) validated by TLC; contents of "
+                 "1..16 MiB validated against FileModelBig.tla (run-length contents, operators proved equal to the explicit ones "
+                 "in small scope by TLC)",
     "design_ref": "DESIGN.md section 6, C17",
     "level_text": "TLC enumerates every history of write/append/reopen/read/copy/move calls up to the configured bound on "
                   "FileModel.tla (one path with a long-lived handle, a second path and a directory target), checks the "
@@ -20,9 +22,10 @@ META = {
                   "equal to Lines for every text over {a,CR,LF} up to the bound and chunk sizes 2..4(5); recorded random "
                   "executions are accepted by TLC only if every returned byte, line and text equals what the "
                   "specification computes from the logged calls.",
-    "level_note": "Bounded (constants in spec/MC_FileModel*.cfg). Sizes above 200000 bytes (the property samples to 16 MiB) are "
-                  "not validated by TLC - explicit sequences of that length are out of its reach; the largest content "
-                  "checked is reported in the evidence. The usage discipline of the documented API is assumed: a path is "
+    "level_note": "Bounded (constants in spec/MC_FileModel*.cfg). Contents above 200000 bytes are validated only for put/append/"
+                  "write/copy/move/content/firstBytes/read/size/text on run-length coded contents (FileModelBig; contents made "
+                  "of up to a few dozen runs; lines()/readLine are not exercised at that size); the largest content checked is "
+                  "reported in the evidence. The usage discipline of the documented API is assumed: a path is "
                   "read back through a fresh object or after close()/flush(), and other objects do not write a path while "
                   "the long-lived object has it open (stdio buffering makes anything else unspecified). text() folds CR LF "
                   "in UTF-16 files by design, generated UTF-16 texts contain no CR LF pair. Trusted: TLC, clang ASan/LSan, "
@@ -49,46 +52,49 @@ def run(ctx):
     ctx.rule = ("one case per transition of the FileModel state graph (history of File/TextFile/Directory calls with the results "
                 "the calls must return + expected observation of all paths); non-trivial = history with >= 2 calls; "
                 "distinct = distinct case lines (hash)")
-    ctx.replay(rep, cases, label="R/FileModel", timeout=ctx.pick(900, 5400))
+    ctx.replay(rep, cases, label="R/FileModel", timeout=ctx.pick(900, 5400), env={"VERIF_TMP": ctx.tmp})
     os.unlink(cases)
     # (3) line shapes at the real chunk size and BOM-encoded texts
     r = ctx.model("MC_FileModel", "MC_FileModel_text_" + tier, emit_to=cases, timeout=ctx.pick(600, 3000), xmx="8g",
                   ignore_cov=("MCPutBin", "MCPutText", "MCAppend", "MCStream", "MCRemove", "MCCopy", "MCMove", "MCHWrite",
                               "MCHPut", "MCHFlush", "MCHClose", "MCHRead", "MCHLines"))
-    ctx.replay(rep, cases, label="R/FileModel-text", timeout=ctx.pick(900, 5400))
+    ctx.replay(rep, cases, label="R/FileModel-text", timeout=ctx.pick(900, 5400), env={"VERIF_TMP": ctx.tmp})
     os.unlink(cases)
     # (3b) contents around the 65536-byte copy block through put / copy / move / handle writes
     ctx.model("MC_FileModel", "MC_FileModel_big_" + tier, emit_to=cases, timeout=ctx.pick(600, 3000), xmx="8g",
               ignore_cov=("MCPutText", "MCAppend", "MCStream", "MCHRead", "MCHLines", "MCPutShape", "MCPutEnc"))
-    ctx.replay(rep, cases, label="R/FileModel-big", timeout=ctx.pick(900, 5400))
+    ctx.replay(rep, cases, label="R/FileModel-big", timeout=ctx.pick(900, 5400), env={"VERIF_TMP": ctx.tmp})
     os.unlink(cases)
     # (4) V
-    files = ctx.record(rec, ctx.pick(12, 64), ctx.pick(2500, 12000), "V/FileModel")
+    files = ctx.record(rec, ctx.pick(12, 64), ctx.pick(2500, 12000), "V/FileModel", env={"VERIF_TMP": ctx.tmp})
     ctx.validate_traces("Trace_FileModel", "Trace_FileModel", files, label="V/FileModel", timeout=ctx.pick(600, 3000))
-    ctx.extra["largest_content_bytes_validated"] = _largest(files)
+    largest = _largest(files)
+    # (5) contents of 1 MiB .. 16 MiB: FileModelBig (run-length contents; equivalence with explicit sequences checked by TLC)
+    ctx.model("FileModelBig", "MC_FileModelBig", timeout=600, must_cover=False)
+    big = ctx.record(rec, ctx.pick(3, 12), ctx.pick(45, 200), "V/FileModelBig", extra_args=("--mode", "1"), env={"VERIF_TMP": ctx.tmp})
+    ctx.validate_traces("Trace_FileModelBig", "Trace_FileModelBig", big, label="V/FileModelBig", timeout=ctx.pick(600, 3000))
+    ctx.extra["largest_content_bytes_validated"] = max(largest, _largest(big, ("z", "r")))
     ctx.assumptions += [
         "exhaustive within the constants of spec/MC_FileModel_%s.cfg, MC_FileModel_text_%s.cfg, MC_FileModel_big_%s.cfg, "
         "MC_FileModelLineReader_%s.cfg; beyond them only the recorded random executions apply" % (tier, tier, tier, tier),
         "usage discipline of the documented API: read back through a fresh object or after close()/flush(); no writes to a "
         "path by other objects while the long-lived object has it open",
-        "contents above 200000 bytes are not exercised (the property samples to 16 MiB)",
+        "contents of 1..16 MiB are sampled (recorder mode 1) as sequences of long runs and compared in run-length form",
         "memory errors/leaks are observed by ASan/LSan on the replayed and recorded executions, not decided by the model",
     ]
 
 
-def _largest(files):
+def _largest(files, keys=("d", "r")):
     import json
     mx = 0
     for f in files:
         with open(f) as fh:
             for ln in fh:
-                if '"d"' not in ln and '"r"' not in ln:
-                    continue
                 try:
                     e = json.loads(ln)
                 except ValueError:
                     continue
-                for k in ("d", "r"):
+                for k in keys:
                     v = e.get(k)
                     if isinstance(v, list) and v and not isinstance(v[0], list):
                         mx = max(mx, sum(v[1::2]))
@@ -98,7 +104,12 @@ def _largest(files):
 def replay(path):
     lib = vlib.build_lib("asan")
     if os.path.basename(path).startswith("rec-") or path.endswith(".ndjson"):
-        return vlib.replay_recorded(path, lib, "c17_record", ["c17_record.cpp"], "Trace_FileModel", "Trace_FileModel")
+        big = "FileModelBig" in os.path.basename(path)
+        if not big and not path.endswith(".ndjson"):
+            import json
+            big = "--mode" in json.load(open(path)).get("args", [])
+        spec = "Trace_FileModelBig" if big else "Trace_FileModel"
+        return vlib.replay_recorded(path, lib, "c17_record", ["c17_record.cpp"], spec, spec)
     rep = vlib.build_harness(lib, "c17_replay", HARNESS)
     r = subprocess.run([rep, "--single", path], env=vlib.run_env())
     return 1 if r.returncode == 1 else (0 if r.returncode == 0 else 2)
